@@ -16,9 +16,9 @@ from simkit import procstate
 from simkit.core import Counter, EventLog, Violation, hash_array
 
 PID = "C10"
-KINDS = ("grid1", "grid2", "grid3", "oned", "rule", "atom", "mol", "uniform", "tensor", "periodic")
+KINDS = ("grid1", "grid2", "grid3", "oned", "rule", "atom", "mol", "uniform", "tensor", "periodic", "angular", "shell")
 SELECTABLE = ("grid1", "grid2", "grid3", "oned", "rule", "periodic")
-QUERYABLE = ("grid1", "grid2", "grid3", "oned", "rule", "atom", "mol", "uniform", "tensor", "local")
+QUERYABLE = ("grid1", "grid2", "grid3", "oned", "rule", "atom", "mol", "uniform", "tensor", "local", "angular", "shell")
 CENTER_KINDS = ("random", "onpoint", "far", "centroid", "badshape")
 RADIUS_KINDS = ("zero", "tiny", "q10", "q50", "q90", "huge", "inf", "neg", "nan", "exact")
 INDEX_KINDS = ("int", "negint", "npint", "npint32", "slice", "slice_step", "intarray", "mask", "list")
@@ -50,6 +50,11 @@ def _gen_new(rng, cfg):
     if kind == "tensor":
         dim = rng.choice([2, 3])
         return ["new", kind, {"dim": dim, "ns": [rng.randint(2, 5) for _ in range(dim)]}]
+    if kind == "angular":
+        return ["new", kind, {"deg": rng.choice([3, 5, 7, 9, 11]), "method": rng.choice(["lebedev", "spherical", "maxdet", "ahrens_beylkin"])}]
+    if kind == "shell":
+        # the per-shell grid an atomic grid hands out: built by the library through the points/weights setters
+        return ["new", kind, {"nr": rng.randint(2, 5), "deg": rng.choice([3, 5, 7]), "i": rng.randrange(5), "rotate": rng.choice([0, 3]), "r_sq": rng.random() < 0.5}]
     raise ValueError(kind)
 
 
@@ -143,6 +148,14 @@ def _build(p_kind, p):
     if p_kind == "tensor":
         gs = [GaussLegendre(n) for n in p["ns"]]
         return Tensor1DGrids(*gs), {}
+    if p_kind == "angular":
+        from grid.angular import AngularGrid
+
+        return AngularGrid(degree=p["deg"], method=p["method"]), {}
+    if p_kind == "shell":
+        rg = BeckeRTransform(0.0, 1.0).transform_1d_grid(GaussLegendre(p["nr"]))
+        ag = AtomGrid(rg, degrees=[p["deg"]], center=np.array([0.2, -0.1, 0.4]), rotate=p["rotate"])
+        return ag.get_shell_grid(p["i"] % p["nr"], r_sq=p["r_sq"]), {}
     raise ValueError(p_kind)
 
 
